@@ -171,6 +171,9 @@ def run_live(case, out):
             for x in o.trade.orders:
                 if x not in all_orders:
                     all_orders.append(x)
+        # ---- an execution call that raises ends there (the pool keeps the exception in a Future nobody reads)
+        for err in w.executor.errors:
+            out.v("execution-call-raised", dict(tags, call=err["call"], exc=err["exc"], where=err["where"]), error=err)
         # ---- post state: every order can progress
         for i, o in enumerate(all_orders):
             out.rule("post-state")
